@@ -50,6 +50,7 @@ type progT struct {
 	bufC   int   // client reader buffer
 	bufS   int
 	unlock bool // Unlock returns are scheduling points too
+	closer int  // >0: a thread closes all four queues (the connection ends) after this many yields
 }
 
 var progsT = []progT{
@@ -57,6 +58,7 @@ var progsT = []progT{
 	{name: "both", cw: []int{3}, sw: []int{3}, polls: 4, bufC: 2, bufS: 64},
 	{name: "dup", cw: []int{6}, polls: 2, dup: 2, bufS: 64, bufC: 64},
 	{name: "up-fine", cw: []int{3}, polls: 1, bufS: 64, bufC: 64, unlock: true},
+	{name: "close", cw: []int{3, 3}, sw: []int{3}, polls: 2, bufS: 64, bufC: 2, closer: 1},
 }
 
 func progByName(n string) *progT {
@@ -74,7 +76,7 @@ func runT(t *testing.T, pg *progT, start uint16, prefix []int) (x *sched.Exec, k
 		p := newPair(start)
 		var commMutex syncshim.Mutex // ClientDnsConnection.commMutex
 		var histMu sync.Mutex
-		var cwDone, swDone atomic.Bool
+		var cwDone, swDone, closed atomic.Bool
 		var srGot, crGot atomic.Int64
 		var cAcc, sAcc, sRead, cRead []byte // accepted by Write / read by the peer's reader
 		var accMu sync.Mutex
@@ -160,7 +162,7 @@ func runT(t *testing.T, pg *progT, start uint16, prefix []int) (x *sched.Exec, k
 			// the poll loop runs for as long as the connection lives: at least pg.polls times, and
 			// then until everything accepted has arrived (bounded)
 			for i := 0; i < pg.polls+12; i++ {
-				if i >= pg.polls && finished() {
+				if (i >= pg.polls && finished()) || closed.Load() {
 					return
 				}
 				chunk := p.cOut.NextChunk()
@@ -190,8 +192,44 @@ func runT(t *testing.T, pg *progT, start uint16, prefix []int) (x *sched.Exec, k
 				}
 			})
 		}
+		if pg.closer > 0 {
+			s.Go("closer", func() {
+				for i := 0; i < pg.closer; i++ {
+					s.Yield("closer-waits")
+				}
+				// what ClientDnsConnection.Close / closeConnection do to the queues
+				closed.Store(true)
+				p.cIn.Close()
+				p.cOut.Close()
+				p.sIn.Close()
+				p.sOut.Close()
+			})
+		}
 		x = s.Run()
 		e, _ := exchErr.Load().(string)
+		if pg.closer > 0 {
+			// the connection was closed under the threads' feet: everybody must have come back (no
+			// deadlock, checked below); writers may report an error, readers may see the end early;
+			// what was read must still be a prefix of what was accepted
+			accMu.Lock()
+			switch {
+			case len(x.Panics) > 0:
+				kind, detail = "T|panic", fmt.Sprint(x.Panics)
+			case x.Deadlock != "":
+				kind, detail = "T|deadlock-after-close", x.Deadlock
+			case x.Capped:
+				kind, detail = "T|livelock", "step limit reached"
+			case !bytes.HasPrefix(cAcc, sRead):
+				kind, detail = "T|not-a-prefix|client->server", fmt.Sprintf("server read % x, client's writes accepted % x", sRead, cAcc)
+			case !bytes.HasPrefix(sAcc, cRead):
+				kind, detail = "T|not-a-prefix|server->client", fmt.Sprintf("client read % x, server's writes accepted % x", cRead, sAcc)
+			}
+			accMu.Unlock()
+			if kind != "" {
+				s.Abandon()
+			}
+			return
+		}
 		switch {
 		case len(x.Panics) > 0:
 			kind, detail = "T|panic", fmt.Sprint(x.Panics)
@@ -265,6 +303,9 @@ func layerT(t *testing.T, r *mc.Run, bound int) {
 	for _, pg := range progsT {
 		pg := pg
 		for _, start := range []uint16{0, 65535} {
+			if pg.closer > 0 && start != 0 && !r.Thorough() {
+				continue // the close program does not depend on sequence numbers
+			}
 			maxSteps := 0
 			n, complete := sched.Explore(bound,
 				func(prefix []int) *sched.Exec {
